@@ -13,7 +13,7 @@ META = {
     'design_ref': 'DESIGN.md §5 C14, §7, Appendix A.30',
     'text': 'translator/cmd/purldump re-reads purl/purl.go (type constants, key set of validType) and every built-in extractor package (imports of the two extractor list.go) and '
             'writes lean/Scalibr/Gen/Purl.lean with every purl type reachable from a ToPURL method (selectors and Type: fields in the method and the repository functions it calls). '
-            'Kernel-checked: emitted types ⊆ accepted types; every type constant accepted; accepted table lower-case; every extractor package accounted for (builds a purl / nil / data-determined); '
+            'Kernel-checked: emitted types ⊆ accepted types; accepted table lower-case (declared-but-unemitted type constants are only probed at run time by `accept c`, informational); every extractor package accounted for (builds a purl / nil / data-determined); '
             'no unresolved Type expression; index laws (GetSpecific = filter in order, GetAllOfType/GetAll = filter up to permutation, has, only) for all lists. '
             'Independent of how validType is written: the stream `accept` calls the real purl.FromString on a well-formed purl of every emitted type (and, informationally, '
             'of every purl.Type* constant), and the `layout` harvest extracts the OS extractors\' fixtures at their PRODUCTION paths (dpkg status at usr/lib/opkg/status where '
@@ -38,7 +38,7 @@ THEOREMS = [NS + t for t in ['C14_types_accepted', 'C14_types_resolved', 'C14_ex
                              'C14_index', 'C14_index_type', 'C14_index_all', 'C14_index_has', 'C14_index_only']] + \
            ['Scalibr.ProtoPkg.' + t for t in ['toInt32_id', 'C14_proto_fields', 'C14_proto_purl', 'C14_proto_layer_partial', 'C14_proto_layer_wraps',
                                              'C14_proto_annotations', 'C14_proto_list', 'C14_proto_lossless_partial', 'C14_proto_not_injective_outside']] + \
-           ['Scalibr.Sbom.' + t for t in ['C14_spdx_fields', 'C14_cdx_fields']]
+           ['Scalibr.Sbom.' + t for t in ['C14_spdx_fields', 'C14_spdx_not_verbatim', 'C14_cdx_fields']]
 KF_GOCASE = 'C14/golang-case-normalised'
 PROTO_KEYS = ['name', 'version', 'locs', 'src', 'anns', 'layer', 'purl', 'eco', 'ex', 'meta', 'pstr']
 KF_NOLOC = 'C14/no-location'
@@ -91,7 +91,7 @@ def write_types_file(ctx, tr_ok):
 
 
 def table_search(ctx):
-    """When C14_types_accepted / C14_consts_accepted no longer check: name the concrete table row (the failing input)."""
+    """When C14_types_accepted no longer checks: name the concrete table row (the failing input)."""
     try:
         src = open(lib.LEAN + '/Scalibr/Gen/Purl.lean').read()
     except OSError:
@@ -120,7 +120,8 @@ def run(ctx):
                        'standalone extractors (they read the running system) are covered by the type table only, not by the harvest',
                        'SPDX output summarises locations in free text and uses the purl\'s name/version by design; compared fields: name, version, purl locator, package count',
                        'Go map iteration order: GetAll / GetAllOfType compared as sets']
-    ctx.rule = ('proto = generic fields of real harvested packages (<= 6 per fixture) + every metadata sample (28 switch types + 5 unknown) x 2 + random packages with nasty strings, nil/empty '
+    ctx.rule = ('NOTE harvest: a fixture that yields no package passes trivially; their share is reported in harvest_no_package_share (about 37 %). '
+                'proto = generic fields of real harvested packages (<= 6 per fixture) + every metadata sample (28 switch types + 5 unknown) x 2 + random packages with nasty strings, nil/empty '
                 'variants, annotations 0..4/-1/2^40, layer indexes up to 2^32+5 -> real ScanResultToProto vs the Lean model, field by field; '
                 'purlrt = every emitted purl type x {name, namespace, version, qualifier value, subpath} x 15 byte classes needing escaping: parses, print∘parse∘print = print, index finds it; '
                 'accept = the real purl.FromString on "pkg:<type>/ns/name@1.0" and on String() of a built PackageURL for every emitted type (oracle) and every Type* constant (reported); '
@@ -207,6 +208,13 @@ def run(ctx):
         if t[0] == 'proto':
             if not fm or '_' in fm:
                 return None
+            # SPEC on the implementation: what the specification's reader recovers from the REAL record = the package's generic
+            # content (C14_proto_lossless_partial), wherever the package is Representable
+            if fm.get('repr') == '1' and fi.get('gen') != fm.get('sgen'):
+                g, w = fi.get('gen', '').split('|'), fm.get('sgen', '').split('|')
+                names = ['name', 'version', 'locations', 'source code', 'annotations', 'layer details', 'purl fields', 'purl string', 'ecosystem', 'extractor']
+                diff = ['%s: record gives %s, package has %s' % (names[i] if i < len(names) else i, g[i] if i < len(g) else '?', w[i]) for i in range(len(w)) if i >= len(g) or g[i] != w[i]]
+                return 'reading the result proto back does not give the package (lossless conversion violated): ' + '; '.join(diff[:4])
             bad = [k for k in PROTO_KEYS if fi.get(k) != fm.get(k)]
             if bad:
                 return 'the result proto does not carry the package\'s fields verbatim: ' + '; '.join('%s: proto has %s, package has %s' % (k, fi.get(k), fm.get(k)) for k in bad[:4])
@@ -260,6 +268,10 @@ def run(ctx):
     if rejected_consts:
         ctx.notes.append('purl type constants declared in purl.go that purl.FromString rejects (informational: no built-in ToPURL emits them): ' + ', '.join(rejected_consts))
     ctx.extra['layout_packages'] = totals.get('layout_packages', 0)
+    nopk = ctx.dist.get('harvest:no-packages', 0)
+    ctx.extra['harvest_no_package_share'] = {'fixtures_without_any_package': nopk, 'of': totals['fixtures'],
+                                             'share': round(nopk / totals['fixtures'], 3) if totals['fixtures'] else None,
+                                             'note': 'these fixtures (invalid / empty / foreign test inputs of the extractors) yield no package and pass the harvest trivially'}
     ctx.extra['harvest'] = {'fixtures': totals['fixtures'], 'packages': totals['packages'], 'with_purl': totals['purls'], 'extractors_with_fixtures': len(totals['extractors'])}
     if not ctx.replay:
         if totals['packages'] < 500:
